@@ -240,6 +240,25 @@ claim('C19',
       'enumeration + product automaton search',
       'DESIGN.md section 4 C19')
 
+claim('C06',
+      'Decides the mechanisms behind the lossless echo: per lexer branch the '
+      'stored extent equals the consumed extent; the echo writer emits every '
+      'token\'s code once in order and is the default; the string re-encoder '
+      'and decoder are extracted as specifications and their composition is '
+      'checked exhaustively over all 256 bytes x 257 right contexts x 2 '
+      'quote kinds, plus every reference escape form.',
+      'Decided: coverage of the source by token extents, echo-writer '
+      'structure and default selection, encode/decode identity for every '
+      'byte in every right context (exhaustive over a finite product), '
+      'reference escape values. Not decided: byte-for-byte equality of a '
+      'concrete echo (composition on paper). Extraction is by recognised '
+      'shape: a rewritten encoder/decoder loop yields exit 2, not a verdict. '
+      'Trusted: refs/escapes.py.',
+      'static analysis: symbolic extent checks, specification extraction of '
+      'encoder/decoder (evaluated tables + regex automata) and exhaustive '
+      'composition over the finite byte x context product',
+      'DESIGN.md section 4 C06')
+
 
 def main():
     props = []
